@@ -16,6 +16,7 @@ import (
 type faultPlan struct {
 	k     int    // index of the dependency call that fails; -1 = none
 	short bool   // for a Write: report one byte less, with an error
+	silent bool  // with short: report one byte less and NO error
 	after []string // dependency calls issued after the failing one
 	hit   bool
 	kind  string // kind of the call that was failed
@@ -127,6 +128,9 @@ func (f *recFile) Write(p []byte) (int, error) {
 	if f.fs.dep("write") {
 		if f.fs.plan.short && len(p) > 0 {
 			n, _ := f.File.Write(p[:len(p)-1])
+			if f.fs.plan.silent {
+				return n, nil
+			}
 			return n, errInjected
 		}
 		return 0, errInjected
